@@ -49,13 +49,11 @@ class TimedRef:
         """value of reg visible to a decode in cycle t (write-back of cycle t already done)."""
         if reg == 0:
             return 0
-        v = self.init[reg]
-        for (wb, val) in self.writes[reg]:
-            if wb <= t:
-                v = val
-            else:
-                break
-        return v
+        w = self.writes[reg]  # in write-back order; reads ask about recent cycles: scan from the end
+        for i in range(len(w) - 1, -1, -1):
+            if w[i][0] <= t:
+                return w[i][1]
+        return self.init[reg]
 
     def latest(self, reg):
         if reg == 0:
